@@ -32,8 +32,11 @@ def validate (r : Row) (p : Payload) : M (List Nat) :=
 def mkBinary (v : Int) : M Payload :=
   if 0 ≤ v ∧ v ≤ 63 then .ok (.binary v.toNat) else .error .conv
 
+/-- `lo <= v <= hi` -/
+def inRange' (lo hi v : PyNum) : Bool := lo.le v && v.le hi
+
 /-- `cls.value_min <= v <= cls.value_max` -/
-def inRange (r : Row) (v : PyNum) : Bool := r.vmin.le v && v.le r.vmax
+def inRange (r : Row) (v : PyNum) : Bool := inRange' r.vmin r.vmax v
 
 /-- `int(value)` for a Python number; OverflowError / ValueError are both caught as ConversionError (after fix 91797be) -/
 def pyInt (v : PyNum) : M Int :=
@@ -202,13 +205,20 @@ def decU16 (r : Row) (raw : List Nat) : M Val :=
   | [a, b], .flt f => .ok (.atom (.flt (F.mul (F.ofInt (a * 256 + b : Nat)) f)))
   | _, _ => .error (.other "IndexError")
 
+def numVal : PyNum → Val
+  | .int i => .atom (.int i)
+  | .flt f => .atom (.flt f)
+
+/-- `struct.unpack(...)[0] * cls.resolution` -/
+def s16Value (res : PyNum) (i : Int) : PyNum :=
+  match res with
+  | .int k => .int (i * k)
+  | .flt f => .flt (F.mul (F.ofInt i) f)
+
 def decS16 (r : Row) (raw : List Nat) : M Val :=
   match structUnpack r.fmt raw with
   | none => .error .conv
-  | some i =>
-    match r.res with
-    | .int k => .ok (.atom (.int (i * k)))
-    | .flt f => .ok (.atom (.flt (F.mul (F.ofInt i) f)))
+  | some i => .ok (numVal (s16Value r.res i))
 
 def decStructInt (r : Row) (raw : List Nat) : M Val :=
   match structUnpack r.fmt raw with
@@ -523,18 +533,23 @@ def encU16 (r : Row) (v : PyNum) : M Payload := do
         if q < 0 then .error (.other "negative") else pure (.array [q.toNat >>> 8, q.toNat % 256])
     | .flt _ => .error (.other "TypeError")
 
-def encS16 (r : Row) (v : PyNum) : M Payload := do
+/-- DPT 8 `to_knx` up to `knx_value = round(value / resolution)` (before struct.pack) -/
+def s16Raw (lo hi res : PyNum) (v : PyNum) : M Int := do
   let x ← pyFloat v
-  if !inRange r (.flt x) then .error .conv
+  if !inRange' lo hi (.flt x) then .error .conv
   else
-    let q ← match r.res with
+    let q ← match res with
       | .int d => (match F.div? x (F.ofInt d) with | some q => pure q | none => .error (.other "ZeroDivisionError"))
       | .flt d => (match F.div? x d with | some q => pure q | none => .error (.other "ZeroDivisionError"))
     match q.roundInt with
     | .error _ => .error .conv
-    | .ok k => match structPack r.fmt k with
-      | some bs => pure (.array bs)
-      | none => .error .conv
+    | .ok k => pure k
+
+def encS16 (r : Row) (v : PyNum) : M Payload := do
+  let k ← s16Raw r.vmin r.vmax r.res v
+  match structPack r.fmt k with
+  | some bs => pure (.array bs)
+  | none => .error .conv
 
 def encStructInt (r : Row) (v : PyNum) : M Payload := do
   let k ← pyInt v
@@ -551,25 +566,45 @@ def f16Loop : Nat → F → Nat → F × Nat
       f16Loop fuel ((F.div? x (F.ofInt 2)).getD x) (e + 1)
     else (x, e)
 
+/-- the range-independent part of DPT 9 `to_knx`: `zero` (payload 00 00) or the scaled value `k'`, the exponent,
+and the two mantissa candidates `round(k')` / `int(k')` -/
+inductive F16Pre where
+  | fail
+  | zero
+  | cand (k' : F) (e : Nat) (m0 mt : Int)
+  deriving DecidableEq, Repr
+
+def f16Pre (x : F) : F16Pre :=
+  let k := F.mul x (F.ofInt 100)
+  match k.roundInt with
+  | .error _ => .fail
+  | .ok 0 => .zero
+  | .ok _ =>
+    let (k', e) := f16Loop 1100 k 0
+    match k'.roundInt, k'.toIntTrunc with
+    | .ok m0, .ok mt => .cand k' e m0 mt
+    | _, _ => .fail
+
+/-- mantissa, exponent, sign of the scaled value → the two octets -/
+def f16Finish (m : Int) (e : Nat) (k' : F) : List Nat :=
+  let m11 := (m % 2048).toNat
+  let msb := (e <<< 3) ||| (m11 >>> 8)
+  let msb := if F.cmpInt 0 k' == some .gt then msb ||| 0x80 else msb
+  [msb, m11 % 256]
+
+/-- DPT 9 `to_knx` after the range check; `ok` is `_test_boundaries` -/
+def f16Enc (ok : F → Bool) (x : F) : M Payload :=
+  match f16Pre x with
+  | .fail => .error .conv
+  | .zero => .ok (.array [0, 0])
+  | .cand k' e m0 mt =>
+    -- never round out of the declared range (fix a5afb5f)
+    .ok (.array (f16Finish (if ok (f16Value m0 e) then m0 else mt) e k'))
+
 def encF16 (r : Row) (v : PyNum) : M Payload := do
   let x ← pyFloat v
   if !inRange r (.flt x) then .error .conv
-  else
-    let k := F.mul x (F.ofInt 100)
-    match k.roundInt with
-    | .error _ => .error .conv
-    | .ok 0 => pure (.array [0, 0])
-    | .ok _ =>
-      let (k', e) := f16Loop 1100 k 0
-      match k'.roundInt, k'.toIntTrunc with
-      | .ok m0, .ok mt =>
-        -- never round out of the declared range (fix a5afb5f)
-        let m := if inRange r (.flt (f16Value m0 e)) then m0 else mt
-        let m11 := (m % 2048).toNat
-        let msb := (e <<< 3) ||| (m11 >>> 8)
-        let msb := if F.cmpInt 0 k' == some .gt then msb ||| 0x80 else msb
-        pure (.array [msb, m11 % 256])
-      | _, _ => .error .conv
+  else f16Enc (fun y => inRange r (.flt y)) x
 
 def encF32 (_r : Row) (v : PyNum) : M Payload := do
   let x ← pyFloat v
